@@ -10,7 +10,7 @@
 (* consumers LongPoll.start / RepeatedTimer (POLL_TIMER), GRPCService.start*)
 (* (SERVICE_SECURE), AuthProvider.get_provider / BasicAuthProvider.        *)
 (*                                                                         *)
-(* Three decision tables; each case is one initial state that carries its  *)
+(* Four decision tables; each case is one initial state that carries its  *)
 (* expected outcome, TLC enumerates them and the harness turns every state *)
 (* into a run of the real code.                                            *)
 (***************************************************************************)
@@ -63,7 +63,13 @@ Behaviour(c) ==
       [] c.setting = "SERVICE_URL" -> "channel_to_that_url"
       [] c.setting = "APP_ROOT" -> "root_prefix_is_app"
 
+(* ---- 4. the application root as deep.start() settles it ---- *)
+(* given in code; else DEEP_APP_ROOT; else computed from the file of the code that called deep.start() *)
+RootCases == [code : {"absent", "value"}, env : {"absent", "text"}]
+Root(c) == IF c.code = "value" THEN "code" ELSE IF c.env = "text" THEN "env_text" ELSE "computed"
+
 Init ==
+    \/ table = "root" /\ case \in RootCases /\ expected = [src |-> Root(case)]
     \/ table = "lookup" /\ case \in LookupCases /\ expected = [src |-> Lookup(case)]
     \/ table = "path" /\ case \in PathCases /\ expected = IsApp(case)
     \/ table = "consumer" /\ case \in ConsumerCases /\ expected = [behaviour |-> Behaviour(case)]
@@ -81,5 +87,6 @@ AbsentOtherwise == (table = "lookup" /\ case.key = "unknown" /\ case.code \in {"
 ExclusionWins == (table = "path" /\ \E p \in case.exc : IsPrefix(p, case.file)) => ~expected.app
 AppIffIncludedOrRoot == (table = "path" /\ ~(\E p \in case.exc : IsPrefix(p, case.file))) =>
                             (expected.app <=> ((\E p \in case.inc : IsPrefix(p, case.file)) \/ IsPrefix(case.root, case.file)))
+RootCodeWins == (table = "root" /\ case.code = "value") => expected.src = "code"
 SameEitherWay == table = "consumer" => \A f \in Forms : Behaviour([setting |-> case.setting, form |-> f]) = expected.behaviour
 =============================================================================
